@@ -76,6 +76,10 @@ def _one_case(rep, spec, index, edit):
     kind = rng.choice(["non_ideal_isothermal_process", "non_ideal_non_isothermal_process", "non_ideal_diffusion_curve"])
     sc = proc.Scenario(rng, kinds=[kind if kind != "non_ideal_diffusion_curve" else "non_ideal_isothermal_process"],
                        nonideal_orders=2 if rng.random() < 0.3 else 1, max_steps=10, default_orders=0.15)
+    if rng.random() < 0.06:
+        # a large table (several curves of about twenty points, > 50 measurements per component), low orders to bound the cost
+        sc.curve_set, sc.cs_desc = gen.gen_curve_set(rng, sc.mix, n_curves=3, n_points=rng.randint(18, 24))
+        sc.orders = {k: (None if v is None else min(v, 1)) for k, v in sc.orders.items()}
     bundled = None
     if rng.random() < 0.15 and spec.get("bundled_dir"):
         # real data: a membrane shipped with the repository (loaded from a copy), its own curve set and mixture
